@@ -369,6 +369,34 @@ pub fn double_decision(rng: &mut Rng) -> T {
     T::Player(first, 0, vec![(0, second(rng, 1, hi)), (1, second(rng, 2, -hi))])
 }
 
+/// many branches of the updating player lead into the same few opponent infosets: parallel tasks
+/// of an external-sampling pass meet there
+pub fn contention_game(rng: &mut Rng, fan: u32, depth: u32) -> T {
+    fn go(rng: &mut Rng, fan: u32, depth: u32, d: u32, own: u32, opp: u32) -> T {
+        if d >= depth {
+            return T::Term(rng.unit() * 2.0 - 1.0);
+        }
+        if d % 2 == 1 {
+            // the opponent remembers only her own moves: every branch of the other player leads
+            // into the same infoset
+            T::Player(
+                false,
+                opp,
+                (0..3).map(|a| (a, go(rng, fan, depth, d + 1, own, opp * 4 + a + 1))).collect(),
+            )
+        } else {
+            // the updating player remembers everything she did and saw
+            let k = if d == 0 { fan } else { 2 };
+            T::Player(
+                true,
+                own * 64 + opp,
+                (0..k).map(|a| (a, go(rng, fan, depth, d + 1, own * 16 + a + 1, opp))).collect(),
+            )
+        }
+    }
+    go(rng, fan, depth, 0, 0, 0)
+}
+
 pub fn adversarial(rng: &mut Rng, i: u64) -> T {
     let (x, y) = (rng.below(60) as u32, rng.below(3) as u32);
     let z = rng.below(3) as u32;
